@@ -28,8 +28,10 @@ pub async fn handle_did_open_text_document(
     let (uri, session) = state.uri_and_session_from_workspace(&params.text_document.uri)?;
     state.documents.handle_open_file(&uri).await;
 
-    send_new_compilation_request(state, session.clone(), &uri, None, false, sync_workspace);
+    // Set the flag before sending the request. Otherwise the compilation thread could finish and
+    // reset the flag before we set it, and it would stay set with nothing left to reset it.
     state.is_compiling.store(true, Ordering::SeqCst);
+    send_new_compilation_request(state, session.clone(), &uri, None, false, sync_workspace);
     state.wait_for_parsing().await;
     state
         .publish_diagnostics(uri, params.text_document.uri, session)
